@@ -127,17 +127,19 @@ func zzC03Skeleton(kind int, alpha float64, monotone bool) {
 // logarithmic mapping: the REAL Index on a symbolic value, math.Log uninterpreted; default and
 // non-default offsets (as decoders build them). Index must be the floor of Log(v)*multiplier+offset.
 func ZZ_C03_skeleton_log() {
-	zzvBound("logarithmic Index skeleton", "every positive finite float64 value (math.Log uninterpreted, its result free in [-1100,1100]); offsets {0, 12.5, -3.25}")
+	zzvBound("logarithmic Index skeleton", "every positive finite float64 value (math.Log uninterpreted, its result free in [-700,700]); offsets {0, 12.5, -3.25}")
 	zzvExactFloatsOnly()
 	zzvSolverSeconds(600)
 	m0, _ := NewLogarithmicMapping(0.01)
 	m, _ := NewLogarithmicMappingWithGamma(m0.gamma, []float64{0, 12.5, -3.25}[zzvChoose("offset", 3)])
-	v := zzvFloat64("v")
-	zzvAssume(zzvAnd(v > 0, v < 1e300))
-	l := math.Log(v)
-	zzvAssume(zzvAnd(l >= -1100, l <= 1100))
+	l := zzvFloat64("logOfValue")
+	zzvAssume(zzvAnd(l >= -700, l <= 700))
+	v := zzvExpOf(l) // engine: any positive v with Log(v) == l (Log uninterpreted); replay: exp(l)
 	zzvCover("value")
 	i := m.Index(v)
+	if zzvChoose("nativeSlack", 1) == 0 {
+		l = math.Log(v) // the same uninterpreted application (natively: the real logarithm of exp(l))
+	}
 	t := l*m.multiplier + m.indexOffset
 	zzvAssert("index-is-floor-of-scaled-log", zzvAnd(float64(i) <= t, zzvOr(t < float64(i)+1, zzvAnd(t < 0, t == float64(i)+1))))
 	zzvAssert("index-fits-int32", zzvAnd(i >= math.MinInt32, i <= math.MaxInt32))
